@@ -454,6 +454,8 @@ func c05SoundSig(st c05State, k, v []byte) string {
 		valShape = "value-stored-at-that-node"
 	case target != nil && c05Hashed(st.ver, target) && bytes.Equal(v, ref.Blake256(target)):
 		valShape = "hash-of-the-hashed-value-stored-at-that-node"
+	case target != nil && bytes.HasPrefix(target, v):
+		valShape = "truncation-of-the-value-stored-at-that-node"
 	}
 	return "Verify:confirms:" + keyShape + ":" + valShape
 }
